@@ -213,17 +213,23 @@ def unit_exacteig(withM, mode, full, complex_, via):
             c.check(tag + ":eigenvalues_are_the_%s_neig_of_the_ascending_spectrum" % ("lowest" if want == "first" else "uppermost"), ek == want,
                     detail="selected: %s" % ek)
             c.check(tag + ":eigenvectors_are_the_columns_of_the_same_pairs", kinds == {want}, detail="selected: %s" % kinds)
-        if withM and len(eighs) == 1:
-            # the decomposed matrix is the Cholesky reduction L^-1 A L^-H of the pencil (similar to M^-1 A)
-            w = eighs[0][0]
-            chol = c.ghost.get("mat_cholesky", [])
-            okc = len(chol) == 1 and chol[0][1] == (("M", mat.N),)
-            c.check(tag + ":M_is_factorised_once_by_cholesky", okc)
+        if not full:
+            # the selection is taken from a complete decomposition of the pencil: X = X_all P, E = the matching end of
+            # E_all, with A X_all = M X_all diag(E_all) and X_all^H M X_all = I (so E_all is the whole spectrum)
+            nf = X.nf()
+            parent = getattr(evals, "parent", None)
+            okc = len(nf) == 1 and parent is not None and len(list(nf)[0]) >= 1 and list(nf)[0][-1][0].startswith("P")
+            c.check(tag + ":selection_is_taken_from_a_complete_decomposition", okc, detail=mat.show(nf)[:200])
             if okc:
-                L = chol[0][0]
-                a = mat.alg()
-                want_w = (a.letter(L + "inv", mat.N), a.letter("A", mat.N), a.letter(L + "inv", mat.H))
-                c.check(tag + ":decomposed_matrix_is_L^-1_A_L^-H", tuple(w) == want_w, detail=mat.show({tuple(w): 1}))
+                w = list(nf)[0][:-1]
+                Xall = mat.Mat({tuple(w): 1}, n, n)
+                Eall = parent.diag()
+                if withM:
+                    prove_eq(c, tag + ":complete_decomposition:A_X_equals_M_X_diag(E)", mat.matmul(Am, Xall), mat.matmul(mat.matmul(Mm, Xall), Eall))
+                    prove_eq(c, tag + ":complete_decomposition:X^H_M_X_is_the_identity", mat.matmul(Xall.H, mat.matmul(Mm, Xall)), mat.Mat.eye(n))
+                else:
+                    prove_eq(c, tag + ":complete_decomposition:A_X_equals_X_diag(E)", mat.matmul(Am, Xall), mat.matmul(Xall, Eall))
+                    prove_eq(c, tag + ":complete_decomposition:X^H_X_is_the_identity", mat.matmul(Xall.H, Xall), mat.Mat.eye(n))
         c.prove("canary", z3.BoolVal(False), kind="canary")
     return kit.run_unit("exacteig[%s,%s,%s,%s,%s]" % ("M" if withM else "noM", mode, "full" if full else "partial",
                                                     "complex" if complex_ else "real", via), run)
